@@ -1,4 +1,4 @@
-SOURCE_COMMITS = ["d2e4e29 fix: wake all waiting accepts when a connection is released (unguarded repair, C18)"]
+SOURCE_COMMITS = ["d2e4e29 fix: wake all waiting accepts when a connection is released (unguarded repair, C18)", "1519567 fix: make validatePositive reject non-positive integers, check subnet key lengths (unguarded repair, C20)"]
 
 claim("C09",
       "Bounded symbolic execution of the real RequestCounter/ring buffer against a sliding-window-log reference: for every interval and every non-decreasing timestamp sequence within the bound the SMT solver shows Add's verdict equals the reference. Bounded (events, limit), full-width values.",
@@ -9,3 +9,8 @@ claim("C18",
       "Inductive step of the real connlimiter.counter from an arbitrary 64-bit state satisfying the representation invariant (increment/decrement preserve it, stop/resume hysteresis exact), plus bounded exploration of all orders of accept / close / double close / listener close on two limitListeners sharing one limiter with the real sync.Cond protocol (coroutine threads, arbitrary Signal waiter), asserting the open+pending bound inside the inner Accept and 'no waiter stays blocked while the limiter accepts' at every quiescent state.",
       "Trusted: symgo models of sync.Mutex/Cond/atomic and its cooperative scheduler (switches at synchronisation points only, no data races), go/ssa, z3. Bounds: stop<=3, <=2 waiters, 3 (quick) / 5 (thorough) close operations, operations run to quiescence one at a time. Outside the claim: net listeners, TLS, ants pools, the TCP pipeline semaphore (not yet encoded), fairness.",
       "DESIGN.md 3 C18")
+
+claim("C20",
+      "The real validate methods of the rate-limit configuration section are executed with every numeric, duration and size field a full-width symbolic value; on every accepting path the solver must show the documented positivity / range facts, and the accepted values are pushed through the real consumers (toInternal, NewBackoff, IsRateLimited for an IPv4 and an IPv6 client, CountResponses, connlimiter.New) with 'no panic outcome' asserted; on every rejecting path the error message must start with the offending property name.",
+      "Trusted: symgo and its models (fmt.Errorf wrapping, reflect.Value Int/Uint, go-cache janitor not run), z3. Input domain = decoded config structs (YAML parsing, env, TLS/file paths outside the claim). Consumer part bounded to counts <= 3 and size estimate >= 16 (loop lengths). Sections other than ratelimit are covered only as far as harnesses in /verif/harness/C20 exist.",
+      "DESIGN.md 3 C20")
